@@ -17,7 +17,7 @@ PROPS = {
                      mc("MCBodyWriter", "MCBodyWriter_chunked_defect3.cfg", expect_violation="Refines")],
         "mc_thorough": [mc("MCBodyWriter", "MCBodyWriter_chunked_impl.cfg"), mc("MCBodyWriter", "MCBodyWriter_chunked_abs_thorough.cfg", workers=8),
                         mc("MCChunkPlan", "MCChunkPlan_small.cfg"), mc("MCChunkPlan", "MCChunkPlan_real_quick.cfg", workers=8)],
-        "require_classes": ["w:term", "w:finish-no-room", "w:err", "w:partial"],
+        "require_classes": ["w:term", "w:finish-no-room", "w:err", "w:partial", "dw:err"],
         "rule": "one case = a fresh chunked writer (Flow<SendBody> or Call<WithBody>) + a schedule of (input length, buffer length) writes; "
                 "distinct = distinct (generator family, api, lengths / log2-shape of the schedule)",
         "assumptions": BW_ASSUME,
@@ -85,7 +85,7 @@ PROPS["C05"] = {
     "mc_quick": [mc("MCHeadPrefix", "MCHeadPrefix.cfg"), mc("MCHeadPrefix", "MCHeadPrefix_clean.cfg"),
                  mc("MCHeadPrefix", "MCHeadPrefix_kf1.cfg", expect_violation="Refines"),
                  mc("MCHeadPrefix", "MCHeadPrefix_f4.cfg", expect_violation="Refines")],
-    "require_classes": ["offer:3xx-after-location", "offer:shorter-than-version", "offer:h-1", "offer:over-limit", "offer:sequence"],
+    "require_classes": ["offer:3xx-after-location", "offer:shorter-than-version", "offer:h-1", "offer:over-limit", "offer:sequence", "offer:after-split-interim"],
     "rule": "one case = one generated well-formed response head (status, version, reason, 0..130 fields with OWS / empty / obs-text values, Location position) "
             "followed by arbitrary bytes, offered at every prefix length 0..|H|+3 to a fresh Flow<RecvResponse> or Call<RecvResponse>; "
             "distinct = distinct (status class, field count, reason class, Location position class)",
@@ -94,7 +94,7 @@ PROPS["C05"] = {
 PROPS["C20"] = {
     "driver": "c20", "trace_spec": "TraceHead",
     "mc_quick": [mc("MCHeadPrefix", "MCHeadPrefix_clean.cfg")],
-    "require_classes": ["c20:over-limit", "partial:some-fields"],
+    "require_classes": ["c20:over-limit", "partial:some-fields", "c20:giant-head"],
     "rule": "one case = one generated request or response head with 0..N+2 fields for a limit N in {0,1,4,128}, every prefix length given to "
             "try_parse_response / try_parse_request / try_parse_partial_response; distinct = distinct (limit, field count, parser, round mod 4)",
     "assumptions": [],
@@ -104,7 +104,7 @@ PROPS["C06"] = {
     "mc_quick": [mc("MCRespRules", "MCRespRules.cfg")] + [mc("MCRespRules", "MCRespRules_%s.cfg" % d, expect_violation="ImplAdmissible")
                  for d in ("LengthBeatsChunked", "ChunkedOnHttp10", "NoConnectClause", "No304Clause", "ChunkedExactCaseOnly")],
     "mc_thorough": [mc("MCRespRules", "MCRespRules_all.cfg", workers=8)],
-    "require_kinds": ["cell"], "require_classes": ["cell:after-interim", "cell:closing-connection"],
+    "require_kinds": ["cell"], "require_classes": ["cell:after-interim", "cell:closing-connection", "cell:after-rejected-expect"],
     "rule": "one cell = (method, status, response version, Content-Length kind, Transfer-Encoding kind) fed as a head to a flow (or single call) built for that method; "
             "distinct = distinct methods and statuses (every cell of their product with 2 x 5 x 5 header combinations is evaluated)",
     "assumptions": ["Content-Length values with sign or leading zeros are outside the quantifier and not generated"],
